@@ -95,6 +95,11 @@ def plan_c07(ctx):
 
 # ------------------------------------------------------------------ C15
 
+def miri_mode(w):
+    """workload seed -> workload kind: now = clock-driven calls on zones whose local dates differ"""
+    return "now" if w % 2 == 0 else ("heavy" if w % 4 == 1 else "light")
+
+
 def miri_runs(ctx, n_seeds, workloads, rates, threads=3, calls=24):
     """Tier B: separate Miri processes, one per (workload seed, miri seed, preemption rate)."""
     cwd = os.path.join(ctx.verif, "tzsim-miri")
@@ -117,7 +122,7 @@ def miri_runs(ctx, n_seeds, workloads, rates, threads=3, calls=24):
             w, s, r = todo.pop(0)
             e = o.env()
             e["MIRIFLAGS"] = f"-Zmiri-seed={s} -Zmiri-preemption-rate={r}"
-            p = subprocess.Popen(["cargo", "+nightly", "miri", "run", "--offline", "--target-dir", os.path.join(ctx.verif, "target", "miri"), "--", str(w), str(threads), str(calls), "heavy" if w % 2 else "light"], cwd=cwd, env=e, stdout=subprocess.PIPE, stderr=subprocess.STDOUT, text=True)
+            p = subprocess.Popen(["cargo", "+nightly", "miri", "run", "--offline", "--target-dir", os.path.join(ctx.verif, "target", "miri"), "--", str(w), str(threads), str(calls if miri_mode(w) != "now" else calls + 16), miri_mode(w)], cwd=cwd, env=e, stdout=subprocess.PIPE, stderr=subprocess.STDOUT, text=True)
             running.append((p, w, s, r))
         time.sleep(0.05)
         for item in list(running):
@@ -133,14 +138,14 @@ def miri_runs(ctx, n_seeds, workloads, rates, threads=3, calls=24):
         os.makedirs(ctx.replays, exist_ok=True)
         path = os.path.join(ctx.replays, f"C15-miri-w{w}-s{s}-r{r}.miri.txt")
         with open(path, "w") as f:
-            f.write(f"# property C15\n# oracle C15.miri\n# replay: cd /verif/tzsim-miri && MIRIFLAGS='-Zmiri-seed={s} -Zmiri-preemption-rate={r}' cargo +nightly miri run --offline --target-dir /verif/target/miri -- {w} {threads} {calls} {'heavy' if w % 2 else 'light'}\n")
-            f.write(f"workload {w}\nmiri_seed {s}\nrate {r}\nthreads {threads}\ncalls {calls}\nmode {'heavy' if w % 2 else 'light'}\n")
+            f.write(f"# property C15\n# oracle C15.miri\n# replay: cd /verif/tzsim-miri && MIRIFLAGS='-Zmiri-seed={s} -Zmiri-preemption-rate={r}' cargo +nightly miri run --offline --target-dir /verif/target/miri -- {w} {threads} {calls if miri_mode(w) != 'now' else calls + 16} {miri_mode(w)}\n")
+            f.write(f"workload {w}\nmiri_seed {s}\nrate {r}\nthreads {threads}\ncalls {calls if miri_mode(w) != 'now' else calls + 16}\nmode {miri_mode(w)}\n")
             f.write("# ---- output of the failing execution\n")
             for line in out.splitlines()[-60:]:
                 f.write("# " + line + "\n")
         kind = "data-race-or-ub" if ("Undefined Behavior" in out or "data race" in out.lower()) else ("digest-mismatch" if "C15-MIRI-MISMATCH" in out else "failed")
         ctx.found.append({"oracle": "C15.miri", "sig": kind, "detail": f"Miri execution (workload {w}, seed {s}, preemption rate {r}) failed: " + " | ".join(out.splitlines()[-6:])[:600], "replay": path, "miri": True})
-    return {"executions": done, "failed": len(fails), "wall_s": round(time.time() - t0, 1), "workload_seeds": list(workloads), "miri_seeds": f"0..{n_seeds}", "preemption_rates": list(rates), "threads": threads, "calls_per_thread": calls}
+    return {"executions": done, "failed": len(fails), "wall_s": round(time.time() - t0, 1), "workload_seeds": list(workloads), "miri_seeds": f"0..{n_seeds}", "preemption_rates": list(rates), "threads": threads, "calls_per_thread": calls, "workload_kinds": {str(w): miri_mode(w) for w in workloads}}
 
 
 def autotraits_gate(ctx):
@@ -176,7 +181,7 @@ def plan_c15(ctx):
     o.handle_deaths(ctx, res)
     agg = o.collect(ctx)
     if thorough:
-        miri = miri_runs(ctx, 128, [1, 2, 3, 4], ["0.05", "0.3"])
+        miri = miri_runs(ctx, 128, [1, 2, 3, 4, 5, 6], ["0.05", "0.3"])
     else:
         miri = miri_runs(ctx, 16, [1, 2], ["0.3"])
     o.required_probes(ctx, agg, ["zone_shared_between_threads", "switch_inside_resolution", "cold_child_evaluations", "env_flip", "clock_jump_backward", "clock_before_epoch", "torn_upgrade"])
